@@ -791,6 +791,7 @@ impl<H: BuildHasher + Default + Clone + std::fmt::Debug> Ex<H> {
             let _ = catch_unwind(AssertUnwindSafe(|| self.do_op(toks, &mut out)));
             fuse_disarm();
             clone_callbacks(false);
+            drop_callbacks(false);
             hash_callbacks(false);
             self.out = out;
             return false;
@@ -804,6 +805,7 @@ impl<H: BuildHasher + Default + Clone + std::fmt::Debug> Ex<H> {
         let r = catch_unwind(AssertUnwindSafe(|| self.do_op(toks, &mut out)));
         fuse_disarm();
         clone_callbacks(false);
+        drop_callbacks(false);
         hash_callbacks(false);
         let t = cmps_get();
         let mut dead = false;
@@ -1200,7 +1202,12 @@ impl<H: BuildHasher + Default + Clone + std::fmt::Debug> Ex<H> {
             // ---- whole-queue operations ---------------------------------
             "clear" => {
                 let r: usize = num(tok(t, 1));
-                on_q!(self.regs.get_mut(r), out, q => q.clear());
+                // dropping the stored items and priorities is user code (Drop::drop)
+                on_q!(self.regs.get_mut(r), out, q => {
+                    drop_callbacks(true);
+                    q.clear();
+                    drop_callbacks(false);
+                });
                 out.push_str("unit");
             }
             "sortedvec" => {
